@@ -144,7 +144,7 @@ fn parse_events(s: &str) -> Vec<(u32, u8)> { s.split(';').filter(|x| !x.is_empty
 fn events_str(e: &[(u32, u8)]) -> String { e.iter().map(|(a, b)| format!("{a}/{b}")).collect::<Vec<_>>().join(";") }
 
 pub fn run(ctx: &Ctx) -> Report {
-    let mut rep = Report::new("exact counts n=1..8 and every non-empty range lo..=hi / lo..hi with 0<=lo<=hi<=4; through hook H2 every RNG sample is a branch point, so EVERY sample sequence (first 7 samples) is run on the real TimerDevice for 40 polls; each configuration also reached through setter sequences (another range then set_range; set_exact(3) then set_range; set_range(2..=5) then set_exact/set_range; each followed by reset_remaining); deviations: disable / io_reset at each of the first 14 polls (1 deviation) and disable-then-enable / double reset pairs (2 deviations); oracle (the property itself): polls strictly between consecutive interrupts within the range (= n for exact n), first interrupt at most max+1 polls after enable/reset, never while disabled; plus unhooked runs: same seed => same sequence (6 seeds x 2), the same device inside a Simulator (interrupt priorities 1, 4, 7; one poll per instruction cycle) observed through a pass-through probe, and Simulator::reset() after the range was shortened mid-interval (24 cases). non-trivial = runs with at least one interrupt");
+    let mut rep = Report::new("exact counts n=1..8 and every non-empty range lo..=hi / lo..hi with 0<=lo<=hi<=4; through hook H2 every RNG sample is a branch point, so EVERY sample sequence (first 7 samples) is run on the real TimerDevice for 40 polls; each configuration also reached through setter sequences (another range then set_range; set_exact(3) then set_range; set_range(2..=5) then set_exact/set_range; each followed by reset_remaining); every range also behind Arc<Mutex<_>> and Arc<RwLock<_>> (polled directly and inside a simulator, with and without the wrapper's lock poisoned by a dead holder); deviations: disable / io_reset at each of the first 14 polls (1 deviation) and disable-then-enable / double reset pairs (2 deviations); oracle (the property itself): polls strictly between consecutive interrupts within the range (= n for exact n), first interrupt at most max+1 polls after enable/reset, never while disabled; plus unhooked runs: same seed => same sequence (6 seeds x 2), the same device inside a Simulator (interrupt priorities 1, 4, 7; one poll per instruction cycle) observed through a pass-through probe, and Simulator::reset() after the range was shortened mid-interval (24 cases). non-trivial = runs with at least one interrupt");
     let rs = ranges();
     let polls = 40;
     let evs = event_sets(polls, 2);
@@ -175,6 +175,10 @@ pub fn run(ctx: &Ctx) -> Report {
     } }
     // inside a simulator: the device's answers at each instruction boundary obey the same rule
     for (ri, r) in rs.iter().enumerate() { for prio in [1u8, 4, 7] { if let Err((sig, d)) = in_simulator(*r, prio) { rep.acc.violation(sig, format!("s:{ri}:{prio}"), d); } rep.acc.evals += 1; } }
+    for (ri, r) in rs.iter().enumerate() { for k in 0..8u8 {
+        rep.acc.evals += 1; rep.acc.count("wrapped_device_cases", 1);
+        if let Err((sig, d)) = wrapped(*r, k & 1, k & 2 != 0, k & 4 != 0) { rep.acc.violation(sig, format!("w:{ri}:{k}"), d); }
+    } }
     for long in [30u32, 200] { for short in [1u32, 3, 8] { for before in [0u32, 1, 5, 12] {
         rep.acc.evals += 1; rep.acc.count("simulator_reset_cases", 1);
         if let Err((sig, d)) = reset_in_simulator(long, short, before) { rep.acc.violation(sig, format!("r:{long}:{short}:{before}"), d); }
@@ -185,12 +189,55 @@ pub fn run(ctx: &Ctx) -> Report {
     rep
 }
 
+/// The timer behind the shared-ownership wrappers (`Arc<Mutex<_>>`, `Arc<RwLock<_>>`), polled through the wrapper; optionally after a
+/// thread died while holding the wrapper's lock (poisoned, free). Same rule as for the bare device.
+fn wrapped(r: Range, kind: u8, poisoned: bool, in_sim: bool) -> Result<(), (String, String)> {
+    use std::sync::{Arc, Mutex, RwLock};
+    let what = format!("range {r:?} behind Arc<{}>{}{}", if kind == 0 { "Mutex" } else { "RwLock" }, if poisoned { ", lock poisoned earlier" } else { "" }, if in_sim { ", attached to a simulator" } else { "" });
+    let res = catch(|| {
+        let mut t = r.make(Some(5)); t.enabled = true;
+        let fires: Vec<bool> = if kind == 0 {
+            let d = Arc::new(Mutex::new(t));
+            if poisoned { poison_mutex(&d); d.lock().unwrap_or_else(|e| e.into_inner()).reset_remaining(); }
+            if in_sim { poll_in_sim(d.clone(), 120) } else { let mut w = d.clone(); (0..120).map(|_| w.poll_interrupt().is_some()).collect() }
+        } else {
+            let d = Arc::new(RwLock::new(t));
+            if poisoned { poison_rwlock(&d); d.write().unwrap_or_else(|e| e.into_inner()).reset_remaining(); }
+            if in_sim { poll_in_sim(d.clone(), 120) } else { let mut w = d.clone(); (0..120).map(|_| w.poll_interrupt().is_some()).collect() }
+        };
+        fires
+    });
+    match res {
+        Err(p) => Err((format!("panic:{}", panic_site(&p)), format!("{what}: {p}"))),
+        Ok(fires) => { let tr = Trace { enabled: vec![true; fires.len()], fires, samples_asked: vec![], resets: vec![] }; judge(r, &tr, &what).map_err(|(s, d)| (format!("wrapped:{s}"), d)) }
+    }
+}
+/// attaches `dev` (through a recording shim) to a simulator running ADDs with an RTI handler; returns what the device answered at each poll
+fn poll_in_sim<D: ExternalDevice + Send + Sync + 'static>(dev: D, steps: usize) -> Vec<bool> {
+    use lc3_ensemble::sim::mem::MachineInitStrategy;
+    use lc3_ensemble::sim::{SimFlags, Simulator};
+    struct Shim<D> { inner: D, log: std::sync::Arc<std::sync::Mutex<Vec<bool>>> }
+    impl<D: ExternalDevice> ExternalDevice for Shim<D> {
+        fn io_read(&mut self, a: u16, e: bool) -> Option<u16> { self.inner.io_read(a, e) }
+        fn io_write(&mut self, a: u16, d: u16) -> bool { self.inner.io_write(a, d) }
+        fn io_reset(&mut self) { self.inner.io_reset() }
+        fn poll_interrupt(&mut self) -> Option<lc3_ensemble::sim::device::Interrupt> { let r = self.inner.poll_interrupt(); self.log.lock().unwrap_or_else(|e| e.into_inner()).push(r.is_some()); r }
+    }
+    let mut sim = Simulator::new(SimFlags { machine_init: MachineInitStrategy::Known { value: 0 }, ..Default::default() });
+    sim.mem[0x0181].set(0x1F00); sim.mem[0x1F00].set(0x8000);
+    for a in 0x3000..0x3100u16 { sim.mem[a].set(0x1021); }
+    let log = std::sync::Arc::new(std::sync::Mutex::new(vec![]));
+    sim.device_handler.add_device(Shim { inner: dev, log: log.clone() }, &[]).ok().unwrap();
+    for _ in 0..steps { let _ = sim.step_in(); }
+    let v = log.lock().unwrap_or_else(|e| e.into_inner()).clone(); v
+}
+
 struct Probe { inner: TimerDevice, log: std::sync::Arc<std::sync::Mutex<Vec<bool>>> }
 impl ExternalDevice for Probe {
     fn io_read(&mut self, a: u16, e: bool) -> Option<u16> { self.inner.io_read(a, e) }
     fn io_write(&mut self, a: u16, d: u16) -> bool { self.inner.io_write(a, d) }
     fn io_reset(&mut self) { self.inner.io_reset() }
-    fn poll_interrupt(&mut self) -> Option<lc3_ensemble::sim::device::Interrupt> { let r = self.inner.poll_interrupt(); self.log.lock().unwrap().push(r.is_some()); r }
+    fn poll_interrupt(&mut self) -> Option<lc3_ensemble::sim::device::Interrupt> { let r = self.inner.poll_interrupt(); self.log.lock().unwrap_or_else(|e| e.into_inner()).push(r.is_some()); r }
 }
 /// Simulator::reset must re-arm an attached timer: after a long interval is under way, the range is shortened and the simulator reset;
 /// the first interrupt has to arrive within the NEW maximum + 1 polls.
@@ -208,12 +255,12 @@ fn reset_in_simulator(long: u32, short: u32, run_before: u32) -> Result<(), (Str
         let prep = |sim: &mut Simulator| { sim.mem[0x0181].set(0x1F00); sim.mem[0x1F00].set(0x8000); for a in 0x3000..0x3100u16 { sim.mem[a].set(0x1021); } };
         prep(&mut sim);
         for _ in 0..run_before { let _ = sim.step_in(); }
-        dev.write().unwrap().inner.set_exact(short);
+        dev.write().unwrap_or_else(|e| e.into_inner()).inner.set_exact(short);
         sim.reset();
         prep(&mut sim);
-        log.lock().unwrap().clear();
+        log.lock().unwrap_or_else(|e| e.into_inner()).clear();
         for _ in 0..(short + 6) { let _ = sim.step_in(); }
-        let v = log.lock().unwrap().clone(); v
+        let v = log.lock().unwrap_or_else(|e| e.into_inner()).clone(); v
     });
     match res {
         Err(p) => Err((format!("panic:{}", panic_site(&p)), p)),
@@ -234,7 +281,7 @@ fn in_simulator(r: Range, prio: u8) -> Result<(), (String, String)> {
         let mut t = r.make(Some(3)); t.enabled = true; t.priority = prio;
         sim.device_handler.add_device(Probe { inner: t, log: log.clone() }, &[]).ok().unwrap();
         for _ in 0..120 { let _ = sim.step_in(); }
-        let v = log.lock().unwrap().clone(); v
+        let v = log.lock().unwrap_or_else(|e| e.into_inner()).clone(); v
     });
     match res {
         Err(p) => Err((format!("panic:{}", panic_site(&p)), p)),
@@ -260,6 +307,7 @@ pub fn replay(case: &str) -> Option<String> {
             let tr = Trace { enabled: vec![true; fires.len()], fires, samples_asked: vec![], resets: vec![] };
             judge(r, &tr, "real RNG").err().map(|x| format!("[{}] {}", x.0, x.1)) }
         "s" => in_simulator(rs[p.get(1)?.parse::<usize>().ok()?], p.get(2).and_then(|x| x.parse().ok()).unwrap_or(4)).err().map(|x| format!("[{}] {}", x.0, x.1)),
+        "w" => { let k: u8 = p.get(2)?.parse().ok()?; wrapped(rs[p.get(1)?.parse::<usize>().ok()?], k & 1, k & 2 != 0, k & 4 != 0).err().map(|x| format!("[{}] {}", x.0, x.1)) }
         "r" => reset_in_simulator(p.get(1)?.parse().ok()?, p.get(2)?.parse().ok()?, p.get(3)?.parse().ok()?).err().map(|x| format!("[{}] {}", x.0, x.1)),
         _ => None,
     }
